@@ -13,6 +13,33 @@ CHECKS = {
    note="Depth-bounded. Trusts: the harness' naive model (15 lines), 128-bit state hashes, Debug rendering exposing all three private fields.",
    design_ref="§3 C11"),
 }
+CHECKS.update({
+ "C01": dict(level="exploration", engine="sdoc-explorer",
+   technique="bounded exhaustive enumeration of grammars x start rules x inputs on the real reader/optimizer/VM against the S_doc reference semantics",
+   text="Every grammar of the corpus (expression trees by size over 20 leaves/10 unary/2 binary operators in 70-150 frames of rule modifier x WHITESPACE/COMMENT set-up x callee rule, plus rewrite-redex slices; default and grammar-extras builds) that pest accepts is run from its start rules on every input up to the length bound; acceptance, documented panics and the complete token stream are compared with an independent executable reading of the documented semantics evaluated on the unoptimized AST. Exhaustive within the size/length bounds; a disagreement is attributed to the optimizer pass that first changes the model's verdict.",
+   note="S_doc clauses M1-M14 (DESIGN.md) are the trusted reading of the prose; diverging cases are excluded (C06); bounds: size <= 3 (quick) / 4 (thorough), input length <= 4/5.",
+   design_ref="§3 C01, Appendix A"),
+ "C05": dict(level="translation_validation", engine="sdoc-explorer",
+   technique="per-pass and per-prefix translation validation by bounded input-exhaustive equivalence under S_doc, plus the real VM on optimize(G)",
+   text="Each rule set rewritten by one pass alone, by each pipeline prefix, and by restore_on_err is validated against the written grammar on every start rule and every input up to the bound: S_doc(before) == S_doc(after) on consumed length, tokens and final stack (layers 1-2), and VM(optimize(G)) == S_doc(G) (layer 3, where the stack-restoration guarantee is judged). optimize() == composition of the exposed passes is checked per grammar.",
+   note="Same reference semantics as C01; passes reached through hook H3; bounded sizes/lengths.",
+   design_ref="§3 C05"),
+ "C08": dict(level="exploration", engine="sdoc-explorer",
+   technique="bounded exhaustive enumeration of failing parses against the attempt-forest oracle (furthest position, soundness of both lists, collapse rule as equality with the fold)",
+   text="Every failing (grammar, rule, input) of the shared corpus on the VM: reported position must be the furthest reportable attempt, every listed rule must have been attempted exactly there with the right polarity, lists strictly ascending, and the lists must equal the fold of DESIGN Appendix B over the attempt forest of S_doc on the optimized rules.",
+   note="Reportable = non-silent rule or EOI whose rule() runs outside Atomic mode. Generated back-end: through C02's VM/generator equality on error position and lists.",
+   design_ref="§3 C08, Appendix B"),
+ "C12": dict(level="exploration", engine="sdoc-explorer",
+   technique="exhaustive limit sweep 1..=C+1 (C = exact call count from hook H2) over a bounded exhaustive corpus",
+   text="For every case of the small corpus the unlimited result and the exact number of tracked calls C are obtained, then every limit from 1 to C+1 is run: each result must equal the unlimited one or be 'call limit reached', and completing limits must be upward closed.",
+   note="Process-global limit owned by single-threaded workers; cases needing more than 60 (quick) / 400 (thorough) calls are counted and skipped.",
+   design_ref="§3 C12"),
+ "C15": dict(level="exploration", engine="sdoc-explorer",
+   technique="bounded exhaustive differential run of every case with error detail off and on",
+   text="Every case of the shared corpus is parsed with set_error_detail(false) and (true): results must be identical; with detail on the attempts must name a boundary position inside the input, the accessor lists must be readable and parse_attempts_error must render without panic.",
+   note="Process-global switch owned by single-threaded workers.",
+   design_ref="§3 C15"),
+})
 PENDING = {}
 
 checks = []
@@ -44,6 +71,7 @@ m = {
  },
  "engines": [
    {"name": "history-bfs", "path": "/verif/harness/c11", "serves_properties": ["C11"], "kind_free_text": "explicit-state breadth-first search over operation histories of the real object, replay-rebuilt, lock-step reference model"},
+   {"name": "sdoc-explorer", "path": "/verif/harness/sdoc", "serves_properties": ["C01", "C05", "C06", "C08", "C12", "C15"], "kind_free_text": "bounded exhaustive grammar x input explorer: real pest_meta front-end + optimizer + pest_vm versus the S_doc reference evaluator; sharded over single-threaded worker processes with a watchdog; built twice (default, grammar-extras)"},
  ],
  "checks": checks,
  "not_applicable": na,
